@@ -280,7 +280,7 @@ impl<const N: u32> From<&Q32E2> for PxE2<{ N }> {
                 frac_a = 0;
             }
 
-            exp_a <<= 28 - reg_a;
+            exp_a = if reg_a <= 28 { exp_a << (28 - reg_a) } else { exp_a >> (reg_a - 28) };
             let mut u_a = Self::pack_to_ui(regime, exp_a as u32, frac_a) & Self::mask();
 
             if bit_n_plus_one {
